@@ -36,10 +36,13 @@ def T(a, b):
     return a == b
 
 
-def base(ctx, zombie=False):
+ODD_COMMS = ["cat", "x) y", "a) Zed", ") Z", "Z) S (Z"]      # names that imitate the end of the name field and a state letter after it
+
+
+def base(ctx, zombie=False, comm="cat"):
     k = simk.Kernel(ctx)
     simk.system_files(k)
-    simk.full_process(k, 77, zombie=zombie)
+    simk.full_process(k, 77, zombie=zombie, comm=comm)
     return k
 
 
@@ -118,7 +121,8 @@ def title(ctx, n, trailing_nul):
 def zombie_cmdline(ctx):
     """a zombie's empty cmdline raises ZombieProcess -- also when the process turned into a zombie in the middle of a oneshot() block
     whose cache was filled (name(), status(), ppid() ...) while it was still running; a live process with an empty cmdline gives []"""
-    k = base(ctx, zombie=False)
+    comm = ctx.choice("process_name", ODD_COMMS)
+    k = base(ctx, zombie=False, comm=comm)
     inside = ctx.flag("inside_oneshot_block")
     warm = ctx.choice("asked_before", [None, "status", "name", "ppid", "cpu_times"]) if inside else None
     zombie_now = ctx.flag("zombie_now")
@@ -131,7 +135,7 @@ def zombie_cmdline(ctx):
             if warm:
                 getattr(p, warm)()
         if zombie_now:        # the process exits and is not reaped: state Z, cmdline/environ/smaps empty, exe/cwd links gone
-            simk.full_process(k, 77, zombie=True)
+            simk.full_process(k, 77, zombie=True, comm=comm)
         else:
             k.files["/proc/77/cmdline"] = ""          # alive, but it wiped its own command line
         try:
@@ -139,9 +143,9 @@ def zombie_cmdline(ctx):
         except psutil.ZombieProcess as e:
             r, exc = None, e
     if zombie_now:
-        ctx.prove(exc is not None and exc.pid == 77, "zombie-empty-cmdline", detail=f"inside oneshot={inside}, asked before: {warm}: cmdline() -> {r!r}")
+        ctx.prove(exc is not None and exc.pid == 77, "zombie-empty-cmdline", detail=f"name {comm!r}, inside oneshot={inside}, asked before: {warm}: cmdline() -> {r!r}")
     else:
-        ctx.prove(exc is None and r == [], "live-empty-cmdline", detail=f"{exc!r} {r!r}")
+        ctx.prove(exc is None and r == [], "live-empty-cmdline", detail=f"name {comm!r}: {exc!r} {r!r}")
 
 
 ENV_Q = [[], [(1, 1, True)], [(2, 2, True), (2, 1, True)], [(1, 2, False), (1, 0, True)], [(0, 2, True), (2, 0, True)], [(1, 1, True), (1, 1, True)]]
@@ -212,7 +216,7 @@ def link(ctx, which, n, tail):
 @harness("C12.withheld", quick=[dict(which=w, err=e) for w in ("cwd", "exe") for e in ("ENOENT", "ESRCH")])
 def withheld(ctx, which, err):
     """the kernel withholds the link (ENOENT/ESRCH) for a live process: '' ; exe() then falls back to cmdline()[0]"""
-    k = base(ctx)
+    k = base(ctx, comm=ctx.choice("process_name", ODD_COMMS))
     k.links[f"/proc/77/{which}"] = simk.oserr(getattr(errno, err), f"/proc/77/{which}")
     a0 = seq.fresh(ctx, "a0", 3, "str", lo=1, hi=0x7F)
     k.files["/proc/77/cmdline"] = a0 + "\x00-x\x00"
